@@ -188,7 +188,7 @@ Proof.
   destruct f as [c|x|c|c| | | | | | | | | | | | | ]; cbn [handle_frame]; try (apply K; apply v6k_refl).
   - apply K. apply lcp_apply_v6k.
   - destruct x; try (apply K; apply v6k_refl).
-    + destruct (in_net (ph (ms m))); apply K; [apply v6k_emit|apply v6k_refl].
+    + destruct (fs (lcp (ms m))); apply K; try apply v6k_refl; apply v6k_emit.
     + apply K. apply ncp_apply_v6k.
     + apply K. apply ncp_apply_v6k.
     + apply K. apply lcp_apply_v6k.
